@@ -85,6 +85,13 @@ func propC03(c *Ctx) {
 			}
 		}
 	}
+	// malformed expressions whose offending token is long and not ASCII (error messages quote it)
+	for _, tok := range []string{"'Привет, как твои дела сегодня?'", "_цена_товара_без_всякой_скидки", "'日本語のテキストをここに書きます'", "x" + strings.Repeat("é", 39), "'" + strings.Repeat("😀", 12) + "'",
+		strings.Repeat("я", 20), strings.Repeat("я", 21), strings.Repeat("я", 40), strings.Repeat("я", 41), "'" + strings.Repeat("ß", 19) + "'", "\"" + strings.Repeat("ц", 30) + "\""} {
+		for _, tpl := range []string{"1 %s", "%s %s", "(%s", "a + %s %s", "f(1 %s)", "a[1 %s]", "%s +", "%s IS", "? %s", "%s ?"} {
+			runCrashExpr(c, strings.ReplaceAll(tpl, "%s", tok), noEnv, "long-non-ascii-offender")
+		}
+	}
 	n := 1500
 	if c.Thorough {
 		n = 40000
